@@ -24,15 +24,15 @@ def handle (args : List String) (_impl : String) : String × String :=
     -- model column of oadd / osub: the WHOLE methods as generated from src/add.rs (Props/C01: gen_overflowing_*_eq)
     | "oadd" => (outF (Ruint.Gen.uint_overflowing_add (nlimbs bits + 1) bits (nlimbs bits) a b), toHex ((x + y) % m) ++ " " ++ boolStr (decide (m ≤ x + y)))
     | "osub" => (outF (Ruint.Gen.uint_overflowing_sub (nlimbs bits + 1) bits (nlimbs bits) a b), toHex ((x + m - y) % m) ++ " " ++ boolStr (decide (x < y)))
-    | "cadd" => (outO (checkedAdd bits a b), sOpt (decide (x + y < m)) (x + y))
-    | "csub" => (outO (checkedSub bits a b), sOpt (decide (y ≤ x)) (x - y))
-    | "sadd" => (out (saturatingAdd bits a b), toHex (min (x + y) (m - 1)))
-    | "ssub" => (out (saturatingSub bits a b), toHex (x - y))
+    | "cadd" => (outO (Ruint.Gen.uint_checked_add (nlimbs bits + 1) bits (nlimbs bits) a b), sOpt (decide (x + y < m)) (x + y))
+    | "csub" => (outO (Ruint.Gen.uint_checked_sub (nlimbs bits + 1) bits (nlimbs bits) a b), sOpt (decide (y ≤ x)) (x - y))
+    | "sadd" => (out (Ruint.Gen.uint_saturating_add (nlimbs bits + 1) bits (nlimbs bits) a b), toHex (min (x + y) (m - 1)))
+    | "ssub" => (out (Ruint.Gen.uint_saturating_sub (nlimbs bits + 1) bits (nlimbs bits) a b), toHex (x - y))
     | "wadd" | "add0" | "add1" | "add2" | "add3" | "add4" | "add5" =>
-        (out (wrappingAdd bits a b), toHex ((x + y) % m))
+        (out (Ruint.Gen.uint_wrapping_add (nlimbs bits + 1) bits (nlimbs bits) a b), toHex ((x + y) % m))
     | "wsub" | "sub0" | "sub1" | "sub2" | "sub3" | "sub4" | "sub5" =>
-        (out (wrappingSub bits a b), toHex ((x + m - y) % m))
-    | "absdiff" => (out (absDiff bits a b), toHex (if x < y then y - x else x - y))
+        (out (Ruint.Gen.uint_wrapping_sub (nlimbs bits + 1) bits (nlimbs bits) a b), toHex ((x + m - y) % m))
+    | "absdiff" => (out (Ruint.Gen.uint_abs_diff (nlimbs bits + 1) bits (nlimbs bits) a b), toHex (if x < y then y - x else x - y))
     | _ => ("bad-op", "bad-op")
   | [op, _, as, bs', cs] =>
     -- word primitives generated from the source (`Ruint.Gen.carrying_add` / `borrowing_sub`)
@@ -50,11 +50,11 @@ def handle (args : List String) (_impl : String) : String × String :=
     let m := 2 ^ bits
     match op with
     | "oneg" => let a := u bits as; let x := parseHex as
-        (outF (overflowingNeg bits a), toHex ((m - x) % m) ++ " " ++ boolStr (decide (0 < x)))
+        (outF (Ruint.Gen.uint_overflowing_neg (nlimbs bits + 1) bits (nlimbs bits) a), toHex ((m - x) % m) ++ " " ++ boolStr (decide (0 < x)))
     | "cneg" => let a := u bits as; let x := parseHex as
-        (outO (checkedNeg bits a), sOpt (decide (x = 0)) 0)
+        (outO (Ruint.Gen.uint_checked_neg (nlimbs bits + 1) bits (nlimbs bits) a), sOpt (decide (x = 0)) 0)
     | "wneg" | "neg" | "negref" => let a := u bits as; let x := parseHex as
-        (out (wrappingNeg bits a), toHex ((m - x) % m))
+        (out (Ruint.Gen.uint_wrapping_neg (nlimbs bits + 1) bits (nlimbs bits) a), toHex ((m - x) % m))
     | "sum" | "sumref" =>
         let xs := if as = "-" then [] else (as.splitOn ",").map parseHex
         (out (sum bits (xs.map (toLimbs (nlimbs bits)))), toHex (xs.foldl (· + ·) 0 % m))
